@@ -4,7 +4,7 @@ PROP = {
     "bin": "c13",
     "prop_file": "Properties/C13.v",
     "model_files": ["DocSet/Spec.v", "DocSet/Impl.v", "DocSet/Program.v", "DocSet/Exclude.v", "DocSet/ReqOpt.v", "DocSet/Sum.v",
-                    "DocSet/Intersect.v", "DocSet/Union.v", "DocSet/Disjunction.v", "DocSet/Cases.v"],
+                    "DocSet/Intersect.v", "DocSet/IntersectProofs.v", "DocSet/Union.v", "DocSet/Disjunction.v", "DocSet/Cases.v"],
     "level": "proof",
     "engine": "E3-docset",
     "level_text": "Proof: a DocSet implementation is a record of the trait's methods; the contract Repr(state, remaining sorted list) is stated once (Impl.v) and "
@@ -16,10 +16,11 @@ PROP = {
                   "RequiredOptionalScorer and Disjunction(min-should-match) transliterate the Rust and are tied by differential runs; "
                   "Compositional Repr theorems are proved for Exclude (single/Vec exclusion set through seek_danger, for ANY children meeting the contract, weak or strong), "
                   "RequiredOptionalScorer and heterogeneous (Box<dyn>) children, so these nest at any depth (example theorem: all programs on Exclude(ReqOpt(leaf,leaf),[leaf,leaf])). "
-                  "_partial: the Repr theorems of Intersection, BufferedUnionScorer and Disjunction are not proved (their models are tied by differential runs and checked against the set semantics); "
-                  "seek_danger is specified relationally in the contract (Found iff member, else a bound in (t, next member], dangling states) but seek_danger calls are not part of the generated programs; "
+                  "For Intersection, go_to_first_doc (Intersection::new / intersect_scorers / seek) is proved for any children meeting the contract: terminates within the fuel, aligns all children on the first common member, skips none; hence new/doc/seek represent sem_inter. "
+                  "seek_danger is specified relationally in the contract (Found iff member, else a bound in (t, next member], dangling states) and programs with seek_danger calls are proved to satisfy the relational spec_check for every implementation meeting the contract; the generated programs contain seek_danger sequences. "
+                  "_partial: the leap-frog Intersection::advance/seek_danger and its dense count, BufferedUnionScorer and Disjunction have no Repr theorem (their models are tied by differential runs and checked against the set semantics); "
                   "scores are not modelled (score path-independence is decided on the implementation side, bit-exact). "
-                  "Known findings: F131 (union seek_danger below its window: witness C13_union_in_union_refuted), F132 (fill_buffer leaves stale score combiners), "
+                  "F131 (union seek_danger below its window) is fixed in /repo; the model follows the pinned shape of the source (flag UNION_DANGER_GUARDS_CURRENT_DOC) and C13_union_in_union_refuted is the witness for the old shape. Known findings: F132 (fill_buffer leaves stale score combiners), "
                   "F133 (a union keeps a dangling intersection child as score contributor).",
     "level_note": "Trusted: Coq kernel + vm_compute; pin.py; the harness (leaf DocSet driven by the trait defaults, BooleanQuery trees over leaf queries, programs generated on line "
                   "against the real scorer). SIMD in-block search of postings, fast-field range and phrase scorers are exercised on the spec layer only (not modelled). "
